@@ -245,11 +245,15 @@ char *qstrreplace(const char *mode, char *srcstr, const char *tokstr,
     newstr = newp = srcp = tokenp = retp = NULL;
 
     char method = mode[0], memuse = mode[1];
-    int maxstrlen, tokstrlen;
+    size_t maxstrlen, tokstrlen, wordlen = strlen(word);
 
     /* Put replaced string into malloced 'newstr' */
     if (method == 't') { /* Token replace */
-        maxstrlen = strlen(srcstr) * ((strlen(word) > 0) ? strlen(word) : 1);
+        // size of the result (a product of the lengths does not fit an int)
+        maxstrlen = 0;
+        for (srcp = srcstr; *srcp; srcp++) {
+            maxstrlen += (strchr(tokstr, *srcp) != NULL) ? wordlen : 1;
+        }
         newstr = (char *) malloc(maxstrlen + 1);
         if (newstr == NULL)
             return NULL;
@@ -269,17 +273,22 @@ char *qstrreplace(const char *mode, char *srcstr, const char *tokstr,
         }
         *newp = '\0';
     } else if (method == 's') { /* String replace */
-        if (strlen(word) > strlen(tokstr)) {
-            maxstrlen = ((strlen(srcstr) / strlen(tokstr)) * strlen(word))
-                    + (strlen(srcstr) % strlen(tokstr));
-        } else {
-            maxstrlen = strlen(srcstr);
+        tokstrlen = strlen(tokstr);
+        if (tokstrlen == 0)
+            return NULL;  // nothing to search for
+        maxstrlen = strlen(srcstr);
+        if (wordlen > tokstrlen) {
+            // size of the result (a product of the lengths does not fit an int)
+            for (srcp = srcstr; *srcp; srcp++) {
+                if (!strncmp(srcp, tokstr, tokstrlen)) {
+                    maxstrlen += wordlen - tokstrlen;
+                    srcp += tokstrlen - 1;
+                }
+            }
         }
         newstr = (char *) malloc(maxstrlen + 1);
         if (newstr == NULL)
             return NULL;
-
-        tokstrlen = strlen(tokstr);
 
         for (srcp = srcstr, newp = newstr; *srcp; srcp++) {
             if (!strncmp(srcp, tokstr, tokstrlen)) {
